@@ -46,6 +46,7 @@ Definition lv_between : nat := 6.     (* BETWEEN: when `between` may start after
 Definition rc_between : nat := 8.     (* upper bound: operators above BETWEEN_AND (7) *)
 Definition lv_neg : nat := 12.
 Definition c_neg : nat := 13.         (* operand of unary minus: only instance of / path / filter / invocation bind tighter *)
+Definition r_neg : nat := 12.         (* rendering of that operand: a nested unary minus needs no parentheses either (`- - a`) *)
 Definition lv_inst : nat := 13.
 Definition lv_post : nat := 15.
 Definition c_post : nat := 13.        (* operand of a postfix form *)
@@ -88,7 +89,7 @@ Fixpoint render_at (m : nat) (t : tree) : list token :=
     match t with
     | Atom a => [TAtom a]
     | Bin o l r => render_at (lc o) l ++ TOp o :: render_at (rc o) r
-    | Neg x => TOp Sub :: render_at c_neg x
+    | Neg x => TOp Sub :: render_at r_neg x
     | Btw x lo hi => render_at lv_between x ++ TBetween :: render_at 0 lo ++ TBand :: render_at rc_between hi
     | Inst x ty => render_at c_post x ++ [TInst ty]
     | Path x n => render_at c_post x ++ [TDot n]
